@@ -22,6 +22,51 @@ COMPONENTS = {
 }
 
 
+def _executable_lines(path):
+    """Line numbers that carry code in a source file (from the compiled code objects)."""
+    try:
+        code = compile(open(path).read(), path, "exec")
+    except Exception:
+        return set()
+    out = set()
+    stack = [code]
+    while stack:
+        c = stack.pop()
+        for _s, _e, ln in c.co_lines():
+            if ln is not None:
+                out.add(ln)
+        for k in c.co_consts:
+            if hasattr(k, "co_lines"):
+                stack.append(k)
+    return out
+
+
+def _line_reach(tot):
+    """Reach probe: barril source lines executed by the sampled histories, per file."""
+    from .boot import src_dir
+
+    per = {}
+    for f, l in tot.get("lines", ()):
+        per.setdefault(f, set()).add(l)
+    files = {}
+    total_hit = total_exec = 0
+    for f in sorted(per):
+        ex = _executable_lines(os.path.join(src_dir(), f))
+        hit = per[f] & ex if ex else per[f]
+        files[f] = "%d/%d" % (len(hit), len(ex))
+        if f.endswith("units/posc.py"):
+            continue  # the unit table itself: executed once at import time, before any history
+        total_hit += len(hit)
+        total_exec += len(ex)
+    return {
+        "sampled_runs": tot.get("cover_runs", 0),
+        "note": "replay of 1 run in 50 under a line tracer (faults stripped); executed / executable lines of the files touched (totals without posc.py, the table that is filled at import time); a reach measure, never a verdict",
+        "lines_executed": total_hit,
+        "executable_lines_of_touched_files": total_exec,
+        "per_file": files,
+    }
+
+
 def write_evidence(prop, tier, seed, profile, tot, wall, violations, known_printed, known_entries, directed, shrink_stats, args, directed_info=None):
     runs = tot["runs"]
     fired = dict(sorted(tot["faults_fired"].items()))
@@ -66,6 +111,7 @@ def write_evidence(prop, tier, seed, profile, tot, wall, violations, known_print
         "harness_incidents": len(tot["harness"]),
         "workers": args.workers,
     }
+    cov["real_code_reached"] = _line_reach(tot)
     zero = [k for k in getattr(profile, "expected_faults", []) if not fired.get(k)]
     if zero:
         cov["warnings"] = ["fault kind configured but never fired in this batch: %s" % ", ".join(zero)]
